@@ -27,6 +27,14 @@ fn main() {
         }
         return;
     }
+    if args.iter().any(|a| a == "--describe") {
+        for p in props::all() {
+            println!("**{}**\n", p.id);
+            for s in &p.scenarios { println!("* `{}`{} — {}.", s.name, if s.thorough_only { " (thorough only)" } else { "" }, s.bounds); }
+            println!();
+        }
+        return;
+    }
     if args.iter().any(|a| a == "--list") {
         for p in props::all() { for s in &p.scenarios { println!("{} {}{}", p.id, s.name, if s.thorough_only { " (thorough)" } else { "" }); } }
         return;
